@@ -34,5 +34,12 @@ for vl, lb in [(32, 0), (32, 1), (32, 29), (32, 30), (32, 31), (32, 32), (32, 25
                   functions=["edwards25519vartime.(*curve).data", "edwards25519vartime.(*curve).encodePoint", "edwards25519vartime.(*curve).embedLen", "mod.(*Int).MarshalBinary"],
                   bound="Ed25519 parameters; y with a %d-byte minimal encoding (arbitrary content), length byte %d, x arbitrary" % (vl, lb),
                   tiers=(["quick", "thorough"] if (vl, lb) in ((32, 0), (32, 29), (32, 30), (32, 31), (32, 255), (1, 30), (0, 0)) else ["thorough"])))
+BQ = "go.dedis.ch/kyber/v4/pairing/bn256."
+for n in [-1, 0, 1, 15, 29, 30, 33]:
+    H.append(dict(name="bn256.G1.Embed-len%s" % ("nil" if n < 0 else n), pkg="./pairing/bn256", files=["harness/C17/bn_embed.go"], entry="HarnessBNEmbed", mode="int", params={"p0": n}, unwind=80, loop_assume={"Embed": 2}, globals_all=True, replay_entry="HarnessBNEmbedReplay",
+                  renames={BQ + "deriveY": "beDeriveY", BQ + "newGFpFromBigInt": "beNewGFp", BQ + "newGFp": "beNewGFpSmall", "(*" + BQ + "curvePoint).IsOnCurve": "beIsOnCurve"},
+                  stubs=["deriveY -> arbitrary verdict; newGFpFromBigInt -> records the integer; IsOnCurve -> arbitrary verdict; stream -> arbitrary bytes", "math/big.Int as mathematical integers"],
+                  functions=["bn256.(*pointG1).Embed"], bound="data length %s, arbitrary content and stream, at most 2 candidates (stated assumption)" % ("nil" if n < 0 else n),
+                  tiers=(["quick", "thorough"] if n in (-1, 0, 1, 29, 30) else ["thorough"])))
 json.dump(dict(property="C17", harnesses=H), open(os.path.join(os.path.dirname(__file__), "..", "specs", "C17.json"), "w"), indent=1)
 print(len(H))
